@@ -338,6 +338,99 @@ pub fn check_c18(ctx: &mut Ctx, input: &[u8]) {
             );
         }
     }
+    // Errors of conversions (a typed parser applied to an already parsed generic / unknown packet) and of
+    // compound iteration (the generic parser applied to one tile) are parse errors too: same truthfulness.
+    let conv = call(|| {
+        let mut out: Vec<(&'static str, &'static str, Option<u8>, RtcpParseError, Option<(usize, usize)>)> = vec![];
+        if let Ok(p) = Packet::parse(b) {
+            macro_rules! conv {
+                ($T:ty, $name:literal) => {{
+                    if let Err(e) = p.try_as::<$T>() {
+                        out.push(("Packet::try_as", $name, Some(<$T>::PACKET_TYPE), e, None));
+                    }
+                    if let Err(e) = <$T>::try_from(&p) {
+                        out.push(("TryFrom<&Packet>", $name, Some(<$T>::PACKET_TYPE), e, None));
+                    }
+                    if let Ok(p2) = Packet::parse(b) {
+                        if let Err(e) = <$T>::try_from(p2) {
+                            out.push(("TryFrom<Packet>", $name, Some(<$T>::PACKET_TYPE), e, None));
+                        }
+                    }
+                }};
+            }
+            conv!(SenderReport, "SenderReport");
+            conv!(ReceiverReport, "ReceiverReport");
+            conv!(Sdes, "Sdes");
+            conv!(Bye, "Bye");
+            conv!(App, "App");
+            conv!(TransportFeedback, "TransportFeedback");
+            conv!(PayloadFeedback, "PayloadFeedback");
+        }
+        if let Ok(u) = Unknown::parse(b) {
+            macro_rules! uconv {
+                ($T:ty, $name:literal) => {{
+                    if let Err(e) = u.try_as::<$T>() {
+                        out.push(("Unknown::try_as", $name, Some(<$T>::PACKET_TYPE), e, None));
+                    }
+                }};
+            }
+            uconv!(SenderReport, "SenderReport");
+            uconv!(ReceiverReport, "ReceiverReport");
+            uconv!(Sdes, "Sdes");
+            uconv!(Bye, "Bye");
+            uconv!(App, "App");
+            uconv!(TransportFeedback, "TransportFeedback");
+            uconv!(PayloadFeedback, "PayloadFeedback");
+        }
+        if let Ok(c) = Compound::parse(b) {
+            // An error yielded by the iteration is about one tile of the length chain. Which tile is
+            // C11's business; here the error only has to be true of *some* tile (so that a tree on which
+            // iteration is off but errors are honest does not alarm this property).
+            if let Some(tiles) = dec::tiling(b) {
+                for item in c.take(tiles.len() + 1) {
+                    if let Err(e) = item {
+                        let ok = match &e {
+                            RtcpParseError::UnsupportedVersion(_) | RtcpParseError::PacketTypeMismatch { .. } => tiles.iter().any(|&(at, end)| {
+                                let t = &b[at..end];
+                                let own = if (200..=206).contains(&t[1]) { Some(t[1]) } else { None };
+                                truthful(&e, t, own).is_ok()
+                            }),
+                            _ => truthful(&e, b, None).is_ok(),
+                        };
+                        out.push(("Compound::next", if ok { "tile" } else { "tile-untruthful" }, None, e, None));
+                    }
+                }
+            }
+        }
+        out
+    });
+    match conv {
+        Err(p) => panic_violation(ctx, "c18", "conversions", b, &p),
+        Ok(list) => {
+            for (route, target, pt, e, tile) in list {
+                any_err = true;
+                let _ = tile;
+                let subject: &[u8] = b;
+                let own = pt;
+                ctx.class_dyn(format!("c18:{route}:{}", crate::drive::variant_name(&format!("{e:?}"))));
+                let verdict = if route == "Compound::next" {
+                    if target == "tile-untruthful" { Err(format!("{e:?} is true of no tile of the datagram")) } else { Ok(()) }
+                } else {
+                    truthful(&e, subject, own)
+                };
+                if let Err(t) = verdict {
+                    ctx.violate(
+                        "payload-truthful",
+                        route,
+                        &format!("{target}:{}", crate::drive::variant_name(&format!("{e:?}"))),
+                        || bytes_case("c18", b),
+                        "the error describes the input accurately",
+                        format!("{route} -> {target} on {}: {t}", hex(&subject[..subject.len().min(40)])),
+                    );
+                }
+            }
+        }
+    }
     if any_err {
         ctx.nontrivial(fnv(b));
         ctx.sample_sparse(200_003, || J::obj().set("len", len).set("hex", hex(&b[..len.min(64)])));
